@@ -655,6 +655,7 @@ def extract_fn(repo, rel, qualname, contract_lines, loops, ats, rewrites, stub=F
         else:
             raise ExtractError("bad @@at position %r" % where_)
     body = squeeze_blank(body)
+    body = '{ /*@body*/' + body[1:]
     out.append(body)
     rec['rules'] = {'R1_log_statements_dropped': nlog, 'R2_format_replaced': nfmt, 'rewrites': applied}
     if info is not None:
